@@ -3,7 +3,7 @@ import ast
 
 from ..model import AnalysisError, Model, walk_no_nested, norm_stmt, names_in
 from ..callgraph import CallGraph
-from .. import flow, dispatch
+from .. import flow, dispatch, sem
 
 EXPLANATION = (
     'Decided on asn1tools/codecs/gser.py: (R1) every string kind whose text is delimited by `"` passes the value through a sanitiser that '
@@ -21,10 +21,13 @@ TIME_KINDS = {'UTCTime': 'YYMMDDhhmm[ss]Z digits', 'GeneralizedTime': 'digits, "
               'TIME-OF-DAY': 'str(time): digits and ":"', 'DATE-TIME': 'str(datetime): digits, "-", ":", "T"'}
 
 
+_RESOLVERS = {}
+
+
 def quoted_templates(f):
-    """Calls  '<..."{}"...>'.format(x)  in f -> [(call, arg)]"""
+    """Calls  '<..."{}"...>'.format(x)  in f (a function, or an expression) -> [(call, arg)]"""
     out = []
-    for n in walk_no_nested(f):
+    for n in (walk_no_nested(f) if isinstance(f, ast.FunctionDef) else ast.walk(f)):
         if isinstance(n, ast.Call) and isinstance(n.func, ast.Attribute) and n.func.attr == 'format' \
                 and isinstance(n.func.value, ast.Constant) and isinstance(n.func.value.value, str) and '"' in n.func.value.value:
             out.append((n, n.args[0] if n.args else None))
@@ -50,6 +53,11 @@ def is_sanitised(arg, f):
         return False
     if san(arg):
         return True
+    if f is None:
+        # an expression with helpers already inlined: str()/format wrappers around the sanitised text are fine
+        if isinstance(arg, ast.Call) and isinstance(arg.func, ast.Name) and arg.func.id in ('str',) and arg.args:
+            return is_sanitised(arg.args[0], None)
+        return False
     if isinstance(arg, ast.Call) and isinstance(arg.func, ast.Name):
         # helper function that sanitises
         g = f._mod.functions.get(arg.func.id)
@@ -130,27 +138,56 @@ def check(ctx):
         if enc is None:
             raise AnalysisError('gser %s has no encode' % cell.cls.name)
         f = enc[1]
-        qs = quoted_templates(f)
-        if not qs:
-            # emitted without quotes?  then it cannot be a character string in RFC 3641 (StringValue is dquote-delimited)
-            ctx.violation('C20.R1', F, f, Model.qual(f), "string kind '%s' is not emitted as a dquote-delimited StringValue" % kind, stmt='no quoted template')
+
+        def resolver(call, cls_=cell.cls, mod_=cell.cls.mod):
+            if isinstance(call.func, ast.Name):
+                r_ = mod_.resolve_name(call.func.id)
+                return r_ if isinstance(r_, ast.FunctionDef) else None
+            if isinstance(call.func, ast.Attribute) and isinstance(call.func.value, ast.Name) and call.func.value.id == 'self':
+                r_ = cls_.find_method(call.func.attr)
+                return r_[1] if r_ else None
+            return None
+        key = (cell.cls.mod.rel, cell.cls.name)
+        if key not in _RESOLVERS:
+            _RESOLVERS[key] = resolver
+        ps = sem.paths(f, resolver=_RESOLVERS[key])
+        rets = [p for p in (ps or []) if p.outcome[0] == 'return']
+        if ps is None or not rets:
+            ctx.instance('C20.R1', "%s ['%s']" % (Model.qual(f), kind), 'undecided', 'no returning path summarised', nontrivial=False, node=f, file=F)
             continue
-        for call, arg in qs:
-            n1 += 1
-            ok = is_sanitised(arg, f)
-            ctx.instance('C20.R1', "%s ['%s' -> %s]" % (Model.qual(f), kind, ast.unparse(call)[:50]), 'sanitised' if ok else 'VIOLATION', node=call, file=F)
-            if not ok:
-                ctx.violation('C20.R1', F, call, Model.qual(f),
-                              'the value is placed between `"` without doubling embedded quotes: \'a"b\' is emitted as "a"b", which an RFC 3641 reader ends at the second quote '
-                              '(and the text no longer determines the value)', stmt='unsanitised quoted emission')
+        for p in rets:
+            e = p.outcome[3]
+            qs = quoted_templates(e)
+            if not qs:
+                # emitted without quotes?  then it cannot be a character string in RFC 3641 (StringValue is dquote-delimited)
+                ctx.violation('C20.R1', F, f, Model.qual(f), "string kind '%s' is not emitted as a dquote-delimited StringValue" % kind, stmt='no quoted template')
+                continue
+            for call, arg in qs:
+                n1 += 1
+                ok = is_sanitised(arg, None)
+                ctx.instance('C20.R1', "%s ['%s' -> %s]" % (Model.qual(f), kind, sem.ctext(e)[:60]), 'sanitised' if ok else 'VIOLATION', node=p.outcome[2], file=F)
+                if not ok:
+                    ctx.violation('C20.R1', F, p.outcome[2], Model.qual(f),
+                                  'the value is placed between `"` without doubling embedded quotes: \'a"b\' is emitted as "a"b", which an RFC 3641 reader ends at the second quote '
+                                  '(and the text no longer determines the value)', stmt='unsanitised quoted emission')
     for kind, why in TIME_KINDS.items():
         cell = tab.cells.get(kind)
         if cell is None or cell.cls is None:
             raise AnalysisError("gser dispatch has no cell for '%s'" % kind)
         f = cell.cls.find_method('encode')[1]
-        for call, arg in quoted_templates(f):
+        key = (cell.cls.mod.rel, cell.cls.name)
+        if key not in _RESOLVERS:
+            def resolver(call, cls_=cell.cls, mod_=cell.cls.mod):
+                if isinstance(call.func, ast.Name):
+                    r_ = mod_.resolve_name(call.func.id)
+                    return r_ if isinstance(r_, ast.FunctionDef) and r_._mod.rel == F else None
+                return None
+            _RESOLVERS[key] = resolver
+        tps = sem.paths(f, resolver=_RESOLVERS[key]) or []
+        dparam = flow.param_names(f)[1]
+        for call, arg in [q for p in tps if p.outcome[0] == 'return' for q in quoted_templates(p.outcome[3])]:
             # the argument must be produced by a formatter (function call), not the raw data
-            ok = isinstance(arg, ast.Call) and not (isinstance(arg.func, ast.Name) and arg.func.id == 'data')
+            ok = isinstance(arg, ast.Call) and not (isinstance(arg.func, ast.Name) and arg.func.id == dparam)
             ctx.instance('C20.R1', "%s ['%s' time text: %s]" % (Model.qual(f), kind, why), 'formatter output' if ok else 'VIOLATION', nontrivial=False, node=call, file=F)
             if not ok:
                 ctx.violation('C20.R1', F, call, Model.qual(f), "time kind '%s' emits raw data between quotes" % kind, stmt='raw time data')
@@ -229,8 +266,8 @@ def check(ctx):
             continue
         ps = flow.param_names(f)
         sep, ind = ps[2], ps[3]
-        for call in walk_no_nested(f):
-            if isinstance(call, ast.Call) and isinstance(call.func, ast.Attribute) and call.func.attr == 'encode' and len(call.args) == 3:
+        for call in sem.method_calls(f, 'encode'):
+            if len(call.args) == 3:
                 n4 += 1
                 d, ed = flow.deps(f)
                 ok = sep in ed(call.args[1]) and ast.unparse(call.args[2]) == ind
@@ -253,15 +290,30 @@ def check(ctx):
         ctx.violation('C20.R5', F, (gets + none_tests + [mt])[0], Model.qual(mt),
                       'member presence is decided from the value (data.get()/is None) instead of `name in data`: a present NULL member (value None) is dropped, '
                       'so two different values produce the same text', stmt='presence by value')
-    fm = [n for n in walk_no_nested(mt) if isinstance(n, ast.Call) and isinstance(n.func, ast.Attribute) and n.func.attr == 'format']
-    ok = any('member.name' in [ast.unparse(a) for a in n.args] or 'name' in [ast.unparse(a) for a in n.args] for n in fm)
+    def formatted_parts(f_):
+        """canonical texts of everything placed into a string by format() / f-string / % / + in f_"""
+        v_ = sem.View(f_)
+        out_ = []
+        for n_ in walk_no_nested(f_):
+            if isinstance(n_, ast.Call) and isinstance(n_.func, ast.Attribute) and n_.func.attr == 'format':
+                out_.extend((v_.text(a_), n_) for a_ in n_.args)
+                out_.extend((v_.text(k_.value), n_) for k_ in n_.keywords)
+            elif isinstance(n_, ast.JoinedStr):
+                out_.extend((v_.text(x_.value), n_) for x_ in n_.values if isinstance(x_, ast.FormattedValue))
+            elif isinstance(n_, ast.BinOp) and isinstance(n_.op, (ast.Mod, ast.Add)):
+                for x_ in (n_.left, n_.right):
+                    for y_ in (x_.elts if isinstance(x_, ast.Tuple) else [x_]):
+                        out_.append((v_.text(y_), n_))
+        return out_
+    ok = any(t.endswith('.name') for t, _n in formatted_parts(mt))
     ctx.instance('C20.R6', '%s emits member names' % Model.qual(mt), 'ok' if ok else 'VIOLATION', node=mt, file=F)
     if not ok:
         ctx.violation('C20.R6', F, mt, Model.qual(mt), 'SEQUENCE/SET members are emitted without their identifiers', stmt='member names')
     ch = model.cls(F, 'Choice').methods['encode']
-    fm = [n for n in walk_no_nested(ch) if isinstance(n, ast.Call) and isinstance(n.func, ast.Attribute) and n.func.attr == 'format'
-          and isinstance(n.func.value, ast.Constant) and ':' in str(n.func.value.value)]
-    ok = any(ast.unparse(n.args[0]) in ('data[0]', 'member.name') for n in fm if n.args)
+    dparam = flow.param_names(ch)[1]
+    def has_colon(n_):
+        return any(isinstance(c_, ast.Constant) and isinstance(c_.value, str) and ':' in c_.value for c_ in ast.walk(n_))
+    ok = any((t == '%s[0]' % dparam or t.endswith('.name')) and has_colon(n_) for t, n_ in formatted_parts(ch))
     ctx.instance('C20.R6', '%s emits "<alternative> : <value>"' % Model.qual(ch), 'ok' if ok else 'VIOLATION', node=ch, file=F)
     if not ok:
         ctx.violation('C20.R6', F, ch, Model.qual(ch), 'CHOICE value is emitted without the alternative identifier', stmt='choice identifier')
